@@ -50,6 +50,9 @@ struct Initial {
     base: J,
     /// restricted event alphabet (pack slots, string indices) for initial states with many packs
     events: Option<(Vec<usize>, Vec<usize>)>,
+    /// the pack files of a container stored as several files: put beside the manifest, so that the
+    /// container can be opened from it and asked for every pack after every rewrite
+    companions: Vec<PathBuf>,
 }
 
 fn blank_locations(mut m: J) -> J {
@@ -212,7 +215,7 @@ fn initials(dir: &Path, thorough: bool) -> Result<Vec<Initial>, String> {
     let slots = locate_slots(&bytes)?;
     let locations = read_locations(&bytes, &slots);
     let base = base_dump(dir, "sep", &bytes);
-    out.push(Initial { name: "standalone-manifest".into(), bytes, file_name: "c.jbk".into(), slots, locations, logical: None, base, events: None });
+    out.push(Initial { name: "standalone-manifest".into(), bytes, file_name: "c.jbk".into(), slots, locations, logical: None, base, events: None, companions: c.files[1..].to_vec() });
     // manifest inside a OneFile container
     let d1 = dir.join("one");
     std::fs::create_dir_all(&d1).unwrap();
@@ -230,9 +233,9 @@ fn initials(dir: &Path, thorough: bool) -> Result<Vec<Initial>, String> {
         }
         let slots2 = locate_slots(&b2)?;
         let base2 = base_dump(dir, "one-groups", &b2);
-        out.push(Initial { name: "onefile-groups".into(), bytes: b2, file_name: "c.jbk".into(), slots: slots2, locations: locations.clone(), logical: Some(l1.clone()), base: base2, events: None });
+        out.push(Initial { name: "onefile-groups".into(), bytes: b2, file_name: "c.jbk".into(), slots: slots2, locations: locations.clone(), logical: Some(l1.clone()), base: base2, events: None, companions: vec![] });
     }
-    out.push(Initial { name: "onefile".into(), bytes, file_name: "c.jbk".into(), slots, locations, logical: Some(l1.clone()), base, events: None });
+    out.push(Initial { name: "onefile".into(), bytes, file_name: "c.jbk".into(), slots, locations, logical: Some(l1.clone()), base, events: None, companions: vec![] });
     // concat outputs: manifest first / middle / last
     let orders: Vec<Vec<usize>> = if thorough {
         jbkmc::gen::permutations(c.files.len()).into_iter().step_by(7).collect()
@@ -255,7 +258,7 @@ fn initials(dir: &Path, thorough: bool) -> Result<Vec<Initial>, String> {
         let slots = locate_slots(&bytes)?;
         let locations = read_locations(&bytes, &slots);
         let base = base_dump(dir, "cat", &bytes);
-        out.push(Initial { name: format!("concat{order:?}"), bytes, file_name: "cat.jbk".into(), slots, locations, logical: Some(l.clone()), base, events: None });
+        out.push(Initial { name: format!("concat{order:?}"), bytes, file_name: "cat.jbk".into(), slots, locations, logical: Some(l.clone()), base, events: None, companions: vec![] });
     }
     // pack-info table far into the manifest (beyond the 64 KiB / 128 KiB read-buffer sizes):
     // 3 packs x free data of 100 / 30 000 / 70 000 bytes, standalone and inside a concat output
@@ -267,7 +270,7 @@ fn initials(dir: &Path, thorough: bool) -> Result<Vec<Initial>, String> {
             let slots = locate_slots(&bytes)?;
             let locations = read_locations(&bytes, &slots);
             let base = base_dump(dir, "free", &bytes);
-            out.push(Initial { name: format!("free-data-{free}-{nm}"), bytes, file_name: fname.into(), slots, locations, logical: None, base, events: None });
+            out.push(Initial { name: format!("free-data-{free}-{nm}"), bytes, file_name: fname.into(), slots, locations, logical: None, base, events: None, companions: vec![] });
         }
     }
     // more than 255 packs (the size of the pack-info table no longer fits 16 bits): a few packs
@@ -283,7 +286,7 @@ fn initials(dir: &Path, thorough: bool) -> Result<Vec<Initial>, String> {
         packs.retain(|p| *p < n);
         packs.sort();
         packs.dedup();
-        out.push(Initial { name: format!("{count}-packs-manifest"), bytes, file_name: "many.jbkm".into(), slots, locations, logical: None, base, events: Some((packs, vec![0, 1, 7])) });
+        out.push(Initial { name: format!("{count}-packs-manifest"), bytes, file_name: "many.jbkm".into(), slots, locations, logical: None, base, events: Some((packs, vec![0, 1, 7])), companions: vec![] });
     }
     Ok(out)
 }
@@ -345,6 +348,46 @@ fn check_state(init: &Initial, bytes: &[u8], model: &[String], path: &Path) -> R
         Ok(x) => x?,
         Err(p) => return Err(v(&format!("panic {}", jbkmc::panic_site(&p)), p)),
     }
+    if !init.companions.is_empty() {
+        // a container stored as several files, opened from the rewritten manifest: as long as the
+        // directory pack's location is the original one the container opens, and every content
+        // pack is answered: found (its file is still where the location says) or missing with the
+        // recorded location - the rewritten one - and never an error
+        let dir_slot = init.slots.iter().position(|s| s.kind == "d");
+        if dir_slot.map_or(false, |i| model[i] == init.locations[i]) {
+            let r = jbkmc::catch(|| -> Result<(), Viol> {
+                let c = jbk::reader::Container::new(path).map_err(|e| v("container (several files) does not open after a content pack's location was rewritten", e.to_string()))?;
+                let n = init.slots.len() as u16;
+                let mut answered = 0;
+                for id in 1..n {
+                    use jbk::Pack;
+                    let (uuid, location) = match c.get_pack(jbk::PackId::from(id)) {
+                        Err(e) => return Err(v("container cannot answer for a pack after a location was rewritten", format!("get_pack({id}): {e}"))),
+                        Ok(None) => continue,
+                        Ok(Some(jbk::reader::MayMissPack::FOUND(p))) => (p.uuid(), None),
+                        Ok(Some(jbk::reader::MayMissPack::MISSING(info))) => (info.uuid, Some(info.pack_location.as_str().to_string())),
+                    };
+                    answered += 1;
+                    let slot = match init.slots.iter().position(|s| s.uuid == uuid) {
+                        Some(i) => i,
+                        None => return Err(v("container answers with a pack the manifest does not list", format!("get_pack({id}): uuid {uuid}"))),
+                    };
+                    match location {
+                        Some(l) if l != model[slot] => return Err(v("location read back (missing pack through the container) differs", format!("pack {slot}: {l:?} vs model {:?}", model[slot]))),
+                        _ => {}
+                    }
+                }
+                if answered + 1 != n {
+                    return Err(v("container no longer answers for every listed pack", format!("{answered} of {} content packs", n - 1)));
+                }
+                Ok(())
+            });
+            match r {
+                Ok(x) => x?,
+                Err(p) => return Err(v(&format!("panic {}", jbkmc::panic_site(&p)), p)),
+            }
+        }
+    }
     if let Some(l) = &init.logical {
         let d = jbkmc::catch(|| dump_container(path, &opts_for(l))).map_err(|p| v(&format!("panic {}", jbkmc::panic_site(&p)), p))?;
         if d["open"] != json!("ok") {
@@ -364,7 +407,7 @@ fn main() {
     let mut rep = Report::new(
         "locmc",
         "C12",
-        "BFS over rewrite histories: state = vector of recorded locations; events = (every pack listed incl. the directory pack, or an unknown uuid) x 11 strings ('', 'a', one ending with U+0000, 'd/e.jbkc' and three other spellings of that path ('d//e.jbkc', 'd/./e.jbkc', 'd/e.jbkc/'), 213 x 'x', 212-byte and 213-byte multi-byte UTF-8); depth 2 (quick) / 3 (thorough) from each initial state (standalone manifest, manifest inside a OneFile container, inside concat outputs with the manifest last / in the middle, the same with non-zero group bytes patched in, and manifests whose pack-info table lies 90 KB / 210 KB into the pack because of per-pack free data, standalone and concatenated); plus manifests listing 300 packs (thorough 255/256/300/600; rewrites of 10 packs spread over the table x 3 strings); plus, per initial state, every byte of every pack description (outside the location) altered before a rewrite of that pack: the rewrite is refused or the description still reads as created or fails; in every state: block CRCs, file structure, locations (independent and library), manifest check(), the library's whole view of the manifest except locations unchanged, container contents; every transition calls the real tools::set_location on a real file; non-trivial = a transition that changes the state",
+        "BFS over rewrite histories: state = vector of recorded locations; events = (every pack listed incl. the directory pack, or an unknown uuid) x 11 strings ('', 'a', one ending with U+0000, 'd/e.jbkc' and three other spellings of that path ('d//e.jbkc', 'd/./e.jbkc', 'd/e.jbkc/'), 213 x 'x', 212-byte and 213-byte multi-byte UTF-8); depth 2 (quick) / 3 (thorough) from each initial state (standalone manifest, manifest inside a OneFile container, inside concat outputs with the manifest last / in the middle, the same with non-zero group bytes patched in, and manifests whose pack-info table lies 90 KB / 210 KB into the pack because of per-pack free data, standalone and concatenated); plus manifests listing 300 packs (thorough 255/256/300/600; rewrites of 10 packs spread over the table x 3 strings); plus, per initial state, every byte of every pack description (outside the location) altered before a rewrite of that pack: the rewrite is refused or the description still reads as created or fails; in every state: block CRCs, file structure, locations (independent and library), and for the standalone manifest with its pack files beside it the container opened from it answers for every content pack (found, or missing with the rewritten location; a directory named like one of the strings exists), manifest check(), the library's whole view of the manifest except locations unchanged, container contents; every transition calls the real tools::set_location on a real file; non-trivial = a transition that changes the state",
     );
     // one child process per group of initial states (--shards N)
     if jbkmc::shard::run_children(&args, &mut rep) {
@@ -401,6 +444,13 @@ fn main() {
         seen.insert(init.locations.clone(), (init.bytes.clone(), vec![]));
         queue.push_back(init.locations.clone());
         std::fs::write(&path, &init.bytes).unwrap();
+        for f in &init.companions {
+            std::fs::copy(f, work.join(f.file_name().unwrap())).unwrap();
+        }
+        if !init.companions.is_empty() {
+            // a directory named like one of the strings: a location that names a directory names no pack
+            let _ = std::fs::create_dir(work.join("a"));
+        }
         if let Err(v) = check_state(init, &init.bytes, &init.locations, &path) {
             rep.violation(&format!("C12 initial state: {}", v.key), &v.what, json!({"engine":"locmc","initial":init.name,"history":[]}));
         }
@@ -550,6 +600,10 @@ fn main() {
                 }
             }
         }
+        for f in &init.companions {
+            let _ = std::fs::remove_file(work.join(f.file_name().unwrap()));
+        }
+        let _ = std::fs::remove_dir(work.join("a"));
     }
     rep.traces_validated += rep.transitions;
     rep.note("location strings above 213 bytes are outside the property and not enumerated");
